@@ -1166,6 +1166,16 @@ func (c *control) dirR(colon, at bool, params []any) {
 	if len(c.args) <= c.argPos {
 		slip.ErrorPanic(c.scope, 0, "missing argument for Radix directive at %d of %q", c.pos, c.str)
 	}
+	// With a radix parameter, ~radix,mincol,padchar,commachar,comma-intervalR,
+	// the argument is printed in that radix like ~D prints in radix 10.
+	if 0 < len(params) && params[0] != nil {
+		radix := c.getIntParam(0, params, 10, true)
+		if radix < 2 || 36 < radix {
+			slip.ErrorPanic(c.scope, 0, "radix must be between 2 and 36 for the Radix directive at %d of %q", c.pos, c.str)
+		}
+		c.dirInt(colon, at, params[1:], radix)
+		return
+	}
 	var (
 		digits []byte
 		words  []string
